@@ -478,7 +478,8 @@ end
 mutual
 /-- `needs_deallocate(resolve, ty, what)`; `handles = what.handles()` -/
 def needsDealloc (handles : Bool) : Ty → Bool
-  | .string | .errctx => true
+  | .string => true
+  | .errctx => false
   | .list _ | .map _ _ => true
   | .own => handles
   | .borrow => false
@@ -531,14 +532,7 @@ def dealloc (handles : Bool) (lvl : Nat) : Ty → List Expr → G (List Stmt)
   | .own, xs => pure (if handles then dropOf .own (liftHandle .own xs) else [])
   | .future p, xs => pure (if handles then dropOf (.future p) (liftHandle (.future p) xs) else [])
   | .stream p, xs => pure (if handles then dropOf (.stream p) (liftHandle (.stream p) xs) else [])
-  | .borrow, _ | .enum _, _ => pure []
-  | .flags n, _ =>
-      -- the Rust arm pops exactly ONE operand whatever the flags' flat width; with 2+ words the
-      -- surplus operands stay on the stack and the final `assert!(self.stack.is_empty())` fires
-      match (flagsRepr n).count with
-      | 1 => pure []
-      | 0 => throw .unwrap
-      | _ => throw .assert
+  | .borrow, _ | .enum _, _ | .flags _, _ => pure []
   | .record fs, xs => do
       let _ ← flatU (.record fs)
       deallocFields handles lvl fs xs
